@@ -320,6 +320,40 @@ func TestC07(t *testing.T) {
 
 		}
 
+		// long groups: thousands of messages of one kind in which a field is
+		// carried only by the last one, two or three (the encoder writes one
+		// definition per group, the union of the fields of all its messages;
+		// however it walks the group, the tail counts)
+		if hx.FirstShard() {
+			for _, n := range []int{1023, 1024, 1025, 1030, 2049, 4099, 5003} {
+				for tail := 1; tail <= 3; tail++ {
+					be := (n+tail)%2 == 1
+					s := &fitmodel.Stream{HeaderSize: 14, Proto: 0x20, Recs: []fitmodel.Rec{
+						{IsDef: true, Global: 0, Fields: []fitmodel.FieldDef{{Num: 0, Size: 1, Base: 0}}}, {Raw: []byte{4}},
+						{IsDef: true, Local: 1, BigEndian: be, Global: 20, Fields: []fitmodel.FieldDef{{Num: 253, Size: 4, Base: 0x86}}},
+						{IsDef: true, Local: 2, BigEndian: be, Global: 20, Fields: []fitmodel.FieldDef{{Num: 253, Size: 4, Base: 0x86}, {Num: 3, Size: 1, Base: 2}, {Num: 7, Size: 2, Base: 0x84}}},
+					}}
+					for i := 0; i < n; i++ {
+						ts := fitmodel.PutWireUint(uint64(0x3B9ACA00+i), 4, be)
+						if i >= n-tail {
+							s.Recs = append(s.Recs, fitmodel.Rec{Local: 2, Raw: append(append(ts, byte(100+i%50)), fitmodel.PutWireUint(uint64(200+i%300), 2, be)...)})
+						} else {
+							s.Recs = append(s.Recs, fitmodel.Rec{Local: 1, Raw: ts})
+						}
+					}
+					x := s.Bytes()
+					sig, msg, ok, acc := checkInput(rec, x, be)
+					rec.Eval("long-groups", 1)
+					if acc {
+						rec.NonTrivial(hx.FPBytes(x))
+					}
+					if !ok {
+						rec.Fail("long-groups", sig, fmt.Sprintf("activity with %d records, heart rate and power only on the last %d: %s", n, tail, msg), inCase{Data: hex.EncodeToString(x), BE: be})
+					}
+				}
+			}
+		}
+
 		// wide: messages carrying every profile field at once (re-encoding
 		// them needs definition messages with up to 130 fields)
 		if hx.FirstShard() {
